@@ -1,7 +1,8 @@
 ------------------------------- MODULE MC_Lfo -------------------------------
-EXTENDS Lfo, TLC
+EXTENDS Lfo, TLC, Json
 
-CONSTANTS Incs    \* increments the model may select
+CONSTANTS Incs,   \* increments the model may select
+          Emit    \* BOOLEAN: print every transition (graph replay)
 
 \* a 4-cell or 8-cell integer "sine": one period sampled at the cell borders
 Sin4 == [i \in 0..4 |-> CASE i = 0 -> 0 [] i = 1 -> 64 [] i = 2 -> 0 [] i = 3 -> -64 [] i = 4 -> 0]
@@ -28,12 +29,14 @@ Thm_C12_sin == \A a \in 0..(M - 1) : \A d \in 0..(M - 1) :
 VARIABLES a0, k
 mcVars == <<lfoVars, a0, k>>
 
-MCInit == PA_Init /\ a0 = 0 /\ k = 0
+GView == <<acc, inc>>
+Lbl(op) == Emit => PrintT(<<"EDGE", ToJson(<<GView, op, GView', <<acc', inc'>>>>)>>)
+MCInit == PA_Init /\ a0 = 0 /\ k = 0 /\ (Emit => PrintT(<<"INIT", ToJson(<<GView, <<acc, inc>>>>)>>))
 MCNext ==
-  \/ Tick /\ k' = k + 1 /\ a0' = a0
-  \/ \E i \in Incs : SetInc(i) /\ a0' = acc /\ k' = 0
-  \/ \E a \in 0..(M - 1) : SetPhase(a) /\ a0' = a /\ k' = 0
-  \/ Reset /\ a0' = 0 /\ k' = 0
+  \/ Tick /\ k' = k + 1 /\ a0' = a0 /\ Lbl([op |-> "tick"])
+  \/ \E i \in Incs : SetInc(i) /\ a0' = acc /\ k' = 0 /\ Lbl([op |-> "freq", i |-> i])
+  \/ \E a \in 0..(M - 1) : SetPhase(a) /\ a0' = a /\ k' = 0 /\ Lbl([op |-> "phase", a |-> a])
+  \/ Reset /\ a0' = 0 /\ k' = 0 /\ Lbl([op |-> "reset"])
 MCSpec == MCInit /\ [][MCNext]_mcVars
 
 Bound == k <= 2 * M
